@@ -28,7 +28,7 @@ def replay_batch_behaviour(rec, d, n_inner):
     try:
         tr = GB.run(sc, tape_mode="script", script=script)
     except TapeMismatch as e:
-        return [("replay.batch.draw_kind_range", str(e))], None
+        return [("replay.batch.draw_range" if e.reason == "range" else "replay.batch.not_followed", str(e))], None
     c = tr["calls"][0]
     probs = []
     if c["outcome"] != "ret":
